@@ -85,6 +85,26 @@ impl Handler {
         }
     }
 
+    /// The number of errors, warnings and infos emitted so far. Together with
+    /// [Handler::diagnostics_since] this tells which diagnostics a section of the compilation emitted.
+    pub fn mark(&self) -> (usize, usize, usize) {
+        let inner = self.inner.borrow();
+        (inner.errors.len(), inner.warnings.len(), inner.infos.len())
+    }
+
+    /// Clones of the diagnostics emitted since `mark` was taken.
+    pub fn diagnostics_since(
+        &self,
+        mark: (usize, usize, usize),
+    ) -> (Vec<CompileError>, Vec<CompileWarning>, Vec<CompileInfo>) {
+        let inner = self.inner.borrow();
+        (
+            inner.errors.get(mark.0..).unwrap_or_default().to_vec(),
+            inner.warnings.get(mark.1..).unwrap_or_default().to_vec(),
+            inner.infos.get(mark.2..).unwrap_or_default().to_vec(),
+        )
+    }
+
     /// Extract all the diagnostics from this handler.
     pub fn consume(self) -> (Vec<CompileError>, Vec<CompileWarning>, Vec<CompileInfo>) {
         let inner = self.inner.into_inner();
